@@ -137,10 +137,16 @@ pub fn engine_cfg(case: &Case, path: &str) -> EngineCfg {
             e.db_check = true;
             e.verify_commit = false;
         }
-        "C06" => e.c06 = true,
+        "C06" => {
+            e.c06 = true;
+            e.fsck_fail = false;
+        }
         // the differential run must do exactly the same reads inside the surviving
         // transactions (in-transaction reads legitimately change which pages a commit rewrites)
-        "C06-diff" => e.c06 = true,
+        "C06-diff" => {
+            e.c06 = true;
+            e.fsck_fail = false;
+        }
         "C03" => {
             // a reader and a growing writer on one thread self-deadlock by construction
             // (documented misuse): start large enough that no commit extends the file
